@@ -115,9 +115,9 @@ class LedgerDomain(ParamsMixin, Domain):
             'A-M: 0 <= model.kopt < model.npt() whenever read (class invariant INV_shape of Model, proved on the real Model methods in bundle model)',
             'N-ratio: ratio > 0 at the trust-region update means the averaged trial objective is below the incumbent (sign of actual/pred with pred >= 0: exact in IEEE-754; pred < 0 exits before the update)',
             'floats and arrays are havoc in this domain (over-approximation): valid for arbitrary residual values',
-            'A-real (one identity): model.as_absolute_coordinates(x - model.xbase) == x for an x that is itself an output of as_absolute_coordinates '
-            '(real arithmetic and idempotent clip without projections; with projections this is numeric assumption N4: Dykstra re-applied to its own '
-            'output returns it — observed deviation <= 1.4e-17 over 300 random ball/half-space runs on the repaired tree, not proved)']
+            'A-real (one identity, WITHOUT projections only): model.as_absolute_coordinates(x - model.xbase) == x for an x that is itself an output of '
+            'as_absolute_coordinates (real arithmetic, idempotent clip). With projections nothing of the kind is assumed: Dykstra re-applied to its own output '
+            'does move it (known finding D24)']
         self.install_ledger_builtins()
         self.builtins['remove_scaling'] = lambda eng, n, a, k, st: RS(a[0]) if isval(a[0]) else UNK
         self.spec_funcs = {'UNSC': UNSC, 'COLDIV': COLDIV, 'EX': EX, 'ER': ER, 'EO': EO, 'ENS': ENS, 'EEN': EEN, 'EJ': EJ, 'EJN': EJN, 'RS': RS, 'ABS': ABS, 'SUBBASE': SUBBASE, 'ROW': ROW, 'MEANV': MEANV, 'REC_X': REC_X, 'REC_R': REC_R, 'REC_NS': REC_NS,
@@ -255,8 +255,10 @@ class LedgerDomain(ParamsMixin, Domain):
             r = SUBBASE(b.g, a)
             # real arithmetic + idempotence of the clip: xbase + clip((xbase + clip(p)) - xbase) == xbase + clip(p).
             # With projections the same identity is the numeric assumption N4 (re-projecting a stored Dykstra output returns it).
+            # WITHOUT projections only.  With projections the same identity would say that Dykstra re-applied to its own output returns it, which is false
+            # (finding D24: up to 0.1 in solve with init.random_initial_directions; see witnesses/d24_reprojection.py), so nothing is assumed there.
             if z3.is_app(a) and a.decl().name() == 'ABS':
-                st.assume(z3.Implies(a.arg(0) == b.g, ABS(b.g, r) == a))
+                st.assume(z3.Implies(z3.And(a.arg(0) == b.g, z3.Not(st.heap[('G', 'proj')])), ABS(b.g, r) == a))
             return r
         if op == '+' and isval(a) and isval(b):
             return ADDV(a, b)
